@@ -841,6 +841,19 @@ pub fn stub_now() -> chrono::DateTime<chrono::Local> {
     chrono::DateTime::<chrono::Local>::from_naive_utc_and_offset(nt, chrono::FixedOffset::east_opt(0).unwrap())
 }
 
+/// the same local clock, one hour WEST of UTC: the UTC instant is one hour later (the next calendar day in the last
+/// hour of the local day), so reading the UTC fields instead of the local ones is visible
+pub fn stub_now_west() -> chrono::DateTime<chrono::Local> {
+    unsafe { K_NOW_CALLS += 1; }
+    let c = unsafe { K_CLOCK };
+    let (y, m, d, h) = if c[3] < 23 { (c[0], c[1], c[2], c[3] + 1) }
+        else if (c[2] as i64) < k_mdays(c[0] as i64, c[1] as i64) { (c[0], c[1], c[2] + 1, 0) }
+        else if c[1] < 12 { (c[0], c[1] + 1, 1, 0) } else { (c[0] + 1, 1, 1, 0) };
+    let nd = chrono::NaiveDate::from_ymd_opt(y as i32, m, d).unwrap();
+    let utc = nd.and_hms_micro_opt(h, c[4], c[5], c[6]).unwrap();
+    chrono::DateTime::<chrono::Local>::from_naive_utc_and_offset(utc, chrono::FixedOffset::west_opt(3600).unwrap())
+}
+
 /// cheap clock for the parser obligations: `Local::now` returns a fixed instant and chrono's year()/month()/day()
 /// accessors on NaiveDateTime read the symbolic clock (assumed: chrono's accessors return the fields the value was built from;
 /// the clock_now_* obligations run chrono's real constructors and accessors)
@@ -933,6 +946,22 @@ fn clock_time_to_timestamp() {
     let a = Timestamp::try_from(t);
     assert!(a.is_ok());
     assert!(unsafe { K_NEW_CALLS } == 1 && unsafe { K_NEW_DAY } == day && unsafe { K_NEW_TOD } == t.usecs());
+}
+
+/// ... in a zone that is not UTC: the LOCAL date is used (also in the hour where the UTC date is already tomorrow)
+#[kani::proof]
+#[kani::stub(chrono::Local::now, stub_now_west)]
+#[kani::stub(crate::timestamp::Timestamp::new, ts_new_probe)]
+fn clock_time_to_timestamp_west() {
+    let c = set_any_clock(false);
+    let day = k_dn(c[0] as i64, c[1] as i64, c[2] as i64);
+    let t = any_time();
+    unsafe { K_NEW_CALLS = 0; }
+    let a = Timestamp::try_from(t);
+    assert!(a.is_ok());
+    assert!(unsafe { K_NEW_CALLS } == 1 && unsafe { K_NEW_DAY } == day && unsafe { K_NEW_TOD } == t.usecs());
+    let d = Date::now();
+    assert!(d.is_ok() && d.unwrap().days() as i64 == day);
 }
 
 #[kani::proof]
